@@ -2,7 +2,7 @@
 """Generates /verif/MANIFEST.json from the table below (one entry per built check)."""
 import json, subprocess
 
-HOOK_COMMITS = ["b1c913c"]
+HOOK_COMMITS = ["b1c913c", "c8ae78c"]
 
 # id -> (level, technique, text, note, design_ref)
 CHECKS = {
@@ -11,6 +11,11 @@ CHECKS = {
             "For every producer history of a bounded family (3 scripted + all depth-2/3 sequences over a 7-op alphabet) the follower's whole delivery-schedule space (batch boundaries, gossip of account blocks before their momentum incl. lag, re-delivery, restart with kept/wiped consensus cache, warmed historical views) is enumerated breadth-first on real nodes; after every transition the follower's raw store, undo/redo patches, frontier and historical views must equal the producer's at the same height.",
             "Trusted: goleveldb, the harness's raw dump; bounds: histories of <=7 momentums, batch <=3/4, gossip window 1/2; fetcher/downloader timers not explored.",
             "5/C02"),
+    "C07": ("model_checking",
+            "explicit-state BFS over store operation sequences vs map-per-version reference + preemption-bounded schedule exploration (writer vs readers) under a controlled scheduler",
+            "Part A: every sequence of <=6 (quick) / <=7 (thorough) operations (commit on frontier with 4/6 write sets incl. empty values, deletes, re-creations and prefix-sharing keys; commit on stale and on rolled-back parents; rollback; open view at any commit / frontier / rolled-back commit; snapshot; write through view) on the real leveldb-backed and memory-backed managers, exact-state dedup (raw bytes + cache overlays + open views); after every transition every open view's Get/Has for every key, every prefix scan and Changes() are compared with a map-per-version reference. Part B: writer [Add,Add,Pop,Add] / [Pop,Pop,Add] against a historical-view reader and a frontier reader, all schedules with <=1 (quick) / <=2 (thorough) preemptions, scheduling points at every mutex acquisition and before every leveldb write.",
+            "Trusted: goleveldb snapshots/iterators, the cooperative scheduler shim (vsync overlay); unsynchronised accesses invisible to lock-level scheduling are outside this check.",
+            "5/C07"),
 }
 
 NOT_BUILT_REASON = "check not built yet in this round (work in progress; see DESIGN.md section 5 for the planned model-checking formulation)"
